@@ -5,9 +5,12 @@ Three specifications decide the verdicts:
 specs/Files.tla (+ FileNames.tla, FilesTrace.tla)  the output directory: every output operation
     (write_html / write_pickle / write_latex / write_f12, dump_on_file, estimate, validate,
     create_backup, recycle, load) creates exactly the documented fresh name(s) and leaves every
-    existing file as it was.  TLC explores every history of the scenario alphabets from several
-    initial directories (holes in the numbering, colliding model names, 101 earlier pickles) and
-    checks NoOverwrite / NothingLost / FreshNames / LeastRule / LoadsWhatWasWritten on the model;
+    existing file as it was; a file name carries the name of its model (m.ext, m~NN.ext) and every lookup
+    by model name (files_of_type, estimate(recycle=True)) sees the files of ITS model only.  TLC explores
+    every history of the scenario alphabets from several initial directories (holes in the numbering,
+    colliding model names, models whose names share a prefix, 101 earlier pickles) and checks
+    NoOverwrite / NothingLost / FreshNames / LeastRule / LoadsWhatWasWritten / SeesOwnFilesOnly /
+    RecycleOwnModel (/ FoundAreOwn) on the model;
     (B) each history is replayed with the REAL functions in a scratch directory and compared after
     every step, (C) the recorded (name -> sha256) snapshots are judged by FilesTrace.tla.
 specs/Parameters.tla   the parameter set and its TOML file: Set / Dump / Read / hand edits / missing
@@ -59,6 +62,7 @@ class Agg:
     def __init__(self, chk):
         self.chk = chk
         self.groups: dict = {}
+        self.reported = 0
 
     def add(self, key: str, detail: dict, match: dict):
         g = self.groups.setdefault((key, json.dumps(match, sort_keys=True)), dict(count=0, examples=[], match=match))
@@ -67,7 +71,10 @@ class Agg:
             g['examples'].append(detail)
 
     def flush(self):
-        for (key, _), g in self.groups.items():
+        """hand the groups over to the check (once each)"""
+        groups, self.groups = self.groups, {}
+        for (key, _), g in groups.items():
+            self.reported += 1
             self.chk.violation(key, dict(count=g['count'], examples=g['examples']), match=g['match'])
 
 
@@ -103,17 +110,39 @@ INVARIANT IOEmitInv
 
 def body(chk: check.Check):
     pool = ThreadPoolExecutor(max_workers=6)
+    agg = Agg(chk)
     try:
-        _body(chk, pool)
-    except BaseException:
+        _body(chk, pool, agg)
+    except BaseException as e:
         # do not sit out the TLC runs that are still going (only the children of THIS process)
         pool.shutdown(wait=False, cancel_futures=True)
         import subprocess
         subprocess.run(['pkill', '-P', str(os.getpid()), '-f', 'tlc2.TLC'], check=False)
+        if isinstance(e, Exception) and (agg.groups or agg.reported):
+            # the library under test misbehaves AND something in the machinery gave up on what it produced:
+            # what was found is reported (exit 1); the failure is kept as an undetected control
+            import traceback
+            agg.flush()
+            chk.control('the check ran to completion', False, ''.join(traceback.format_exception_only(type(e), e))[:600])
+            return
         raise
 
 
-def _body(chk: check.Check, pool):
+def guarded(chk, name: str, fn):
+    """a negative control never takes the check down: what it raises (e.g. because the library under
+    test does not behave as the control assumes) counts as 'not detected'"""
+    try:
+        detected, note = fn()
+    except Exception as e:  # noqa
+        detected, note = False, f'the control could not be run: {type(e).__name__}: {str(e)[:300]}'
+    chk.control(name, bool(detected), str(note)[:600])
+
+
+def _keys(st, val) -> set:
+    return {m['key'] for m in val['mismatches']} if st == 'ok' else {f'replay {st}'}
+
+
+def _body(chk: check.Check, pool, agg):
     # replays create and delete thousands of small files: tmpfs when there is one (TLC stays in /var/tmp)
     saved = os.environ.get('VERIF_SCRATCH')
     if not saved and os.access('/dev/shm', os.W_OK):
@@ -122,7 +151,6 @@ def _body(chk: check.Check, pool):
     if saved is None:
         os.environ.pop('VERIF_SCRATCH', None)
     quick = chk.tier == 'quick'
-    agg = Agg(chk)
     tm: dict = {}
     chk.rule = ('histories of output operations in one directory, Set/Dump/Read/edit histories of the parameter file (one per edge '
                 'of the abstract state graph, per parameter) and raw estimation outcomes x earlier pickles, all enumerated by TLC '
@@ -131,18 +159,23 @@ def _body(chk: check.Check, pool):
 
     # ------------------------------------------------------------------ launch every TLC run
     scns = fio.scenarios(chk.tier)
+    if len({s.slices for s in scns}) != 1:
+        raise tlc.MachineryError('the scenarios of one tier share one number of validation folds (their traces are judged together)')
     fjobs = {}
     for sc in scns:
         kw = dict(extra_modules={'FilesGen': sc.module()}, timeout=1500, heap='3g')
         if sc.simulate:
             kw.update(simulate=sc.simulate, depth=sc.max_ops + 1, seed=chk.seed % 100000 + 1, workers=1)
-            cfgtxt = sc.cfg(fio.MODEL_INVARIANTS + ['EmitInv'])
+            cfgtxt = sc.cfg(sc.all_invariants() + ['EmitInv'])
         else:
             kw.update(workers=3)
-            cfgtxt = sc.cfg(fio.MODEL_INVARIANTS + ['EmitInv'], fio.MODEL_PROPERTIES)
+            cfgtxt = sc.cfg(sc.all_invariants() + ['EmitInv'], fio.MODEL_PROPERTIES)
         fjobs[sc.label] = pool.submit(run_tlc, 'FilesGen', cfgtxt, **kw)
     sc0 = scns[0]
+    sc_pre = [s for s in scns if s.label == 'prefix: mode / mode_price'][0]
     fmut = {
+        'prefix': pool.submit(run_tlc, 'FilesGen', sc_pre.cfg(['RecycleOwnModel'], mutant='prefix', max_ops=2),
+                              extra_modules={'FilesGen': sc_pre.module()}, workers=1, timeout=600, heap='1g'),
         'overwrite': pool.submit(run_tlc, 'FilesGen', sc0.cfg(fio.MODEL_INVARIANTS, fio.MODEL_PROPERTIES, mutant='overwrite', max_ops=2),
                                  extra_modules={'FilesGen': sc0.module()}, workers=1, timeout=600, heap='1g'),
         'highest': pool.submit(run_tlc, 'FilesGen', sc0.cfg(fio.MODEL_INVARIANTS, fio.MODEL_PROPERTIES, mutant='highest', max_ops=2),
@@ -199,8 +232,11 @@ def _body(chk: check.Check, pool):
     # ------------------------------------------------------------------ files: replay + trace validation
     t_ = time.time()
     all_traces = []
-    control_hist = None
+    control_hist = None     # (history, scenario, clean): chosen by its SHAPE; a history the library replays cleanly is preferred
+    control_prefix = None   # a history in which model "mode" looks for its pickles next to those of mode_price only
     vjobs = []
+    pending: list = []      # recorded traces waiting for a FilesTrace JVM (one JVM per ~900 traces, several scenarios together)
+    label_of: dict = {}
     for sc in scns:
         res = fjobs[sc.label].result()
         chk.add_tlc(f'Files: {sc.label}', res)
@@ -222,18 +258,32 @@ def _body(chk: check.Check, pool):
                 continue
             chk.count(('files', sc.label, json.dumps([h['pre'], [s['op'] for s in h['steps']]])), val['n'])
             for m in val['mismatches']:
-                agg.add(m['key'], dict(scenario=sc.label, initial=h['pre'][:12], **m), facts(m['key'], m))
+                agg.add(m['key'], dict(scenario=sc.label, initial=h['pre'][:12], **m), dict(facts(m['key'], m), scenario=sc.label))
             traces.append(fio.encode_trace(len(all_traces) + len(traces), val['trace']))
-            if control_hist is None and sc.label == 'reports+holes' and not val['mismatches'] and h['pre'] \
-                    and h['steps'][0]['op']['k'] == 'write' and h['steps'][0]['op']['a'] == 'html' and '~' in h['steps'][0]['new'][0]:
-                control_hist = (h, sc, traces[-1])
+        for h, (st, val) in zip(hists, out):
+            clean = st == 'ok' and not val['mismatches']
+            first = h['steps'][0]
+            if sc.label == 'reports+holes' and (control_hist is None or (clean and not control_hist[2])) and h['pre'] \
+                    and first['op']['k'] == 'write' and first['op']['a'] == 'html' and '~' in first['new'][0]:
+                control_hist = (h, sc, clean)
+            if sc.label == 'prefix: mode / mode_price' and (control_prefix is None or (clean and not control_prefix[2])) \
+                    and first['op'] == fio.op('recycle', 'mode') and 'mode_price.pickle' in h['pre'] and first['new']:
+                control_prefix = (h, sc, clean)
+        if not hists:
+            raise tlc.MachineryError(f'Files: {sc.label}: TLC emitted no history ({res.violated or "no violation"})')
         mid = hists[len(hists) // 2]
         chk.sample(dict(files_scenario=sc.label, initial_directory=mid['pre'][:8],
                         history=[[s['op']['k'], s['op']['a'], s['op']['b'], 'creates', s['new'], 'reads', s['from']] for s in mid['steps']]),
                    limit=8)
         all_traces += traces
-        # judge the traces of this scenario while the next one is replayed
-        vjobs.append((sc, traces, pool.submit(fio.validate, traces, sc.slices, max(sc.max_index, 16))))
+        # judge the traces of the scenarios replayed so far while the next one is replayed
+        for t in traces:
+            label_of[t['tid']] = sc.label
+        pending += traces
+        if len(pending) >= 900 or sc is scns[-1]:
+            batch, pending = pending, []
+            if batch:
+                vjobs.append((sorted({label_of[t['tid']] for t in batch}), batch, pool.submit(fio.validate, batch, sc.slices)))
     # ------------------------------------------------------------------ results: replay
     tm['files_replay'] = round(time.time() - t_, 1)
     t_ = time.time()
@@ -310,6 +360,8 @@ def _body(chk: check.Check, pool):
     chk.extra['parameter_histories_replayed'] = par_hist_total
     chk.extra['parameters'] = {r['key']: dict(kind=r['kind'], admissible=r['adm'], refused=r['ref'], file_ok=r['fok'], file_refused=r['fbad'])
                                for r in rows}
+    chk.extra['admissible_values_not_of_the_class_of_the_default'] = {
+        r['key']: [t for t in r['adm'] if t[0] != r['def'][0]] for r in rows if any(t[0] != r['def'][0] for t in r['adm'])}
     # the constructor of BIOGEME in a directory without parameter file: Read of a missing file
     st, val = rt.forked(biogeme_in_empty_directory, rows)
     chk.replayed += 1
@@ -324,19 +376,23 @@ def _body(chk: check.Check, pool):
     tm['parameters'] = round(time.time() - t_, 1)
     t_ = time.time()
 
-    for sc, traces, fut in vjobs:
+    for labels, traces, fut in vjobs:
         verdicts, vres = fut.result()
-        chk.add_tlc(f'FilesTrace: {sc.label}', vres)
-        if len(verdicts) != len(traces):
-            raise tlc.MachineryError(f'FilesTrace {sc.label}: {len(verdicts)} verdicts for {len(traces)} traces')
+        chk.add_tlc(f'FilesTrace: {" + ".join(labels)}', vres)
+        if len(verdicts) != len(traces) and not (agg.groups or agg.reported):
+            raise tlc.MachineryError(f'FilesTrace {labels}: {len(verdicts)} verdicts for {len(traces)} traces')
         for t in traces:
+            if t['tid'] not in verdicts:   # (only with violations already on record: what the library left behind is beyond judging)
+                chk.extra['traces_without_verdict'] = chk.extra.get('traces_without_verdict', 0) + 1
+                continue
             chk.traces += 1
-            v = verdicts[t['tid']]
+            v = str(verdicts[t['tid']])
             if v != 'ok':
-                clause = v.split(':', 1)[1]
-                agg.add(f'files:trace rejected:{clause}', dict(scenario=sc.label, verdict=v, steps=[s['op'] for s in t['steps']],
-                                                                failing_step=t['steps'][int(v.split(':')[0]) - 1]),
-                        dict(area='files', kind='trace', clause=clause))
+                clause = v.split(':', 1)[-1]
+                at = v.split(':')[0]
+                agg.add(f'files:trace rejected:{clause}', dict(scenario=label_of[t['tid']], verdict=v, steps=[s['op'] for s in t['steps']],
+                                                                failing_step=t['steps'][int(at) - 1] if at.isdigit() and 0 < int(at) <= len(t['steps']) else None),
+                        dict(area='files', kind='trace', clause=clause, scenario=label_of[t['tid']]))
     tm['trace_validation_wait'] = round(time.time() - t_, 1)
     chk.extra['wall_by_part_s'] = tm
 
@@ -354,78 +410,149 @@ def _body(chk: check.Check, pool):
         with_holes_TLC_reports=r1.violated,
         counterexample_with_holes=(r1.counterexample or '')[:1500])
 
-    # ------------------------------------------------------------------ negative controls
-    for name, inv in (('overwrite', {'FreshNames', 'NoOverwrite'}), ('highest', {'LeastRule'})):
-        r = fmut[name].result()
-        chk.add_tlc(f'Files with seeded defect {name}', r, expect_ok=False)
-        chk.control(f'Files.tla with seeded naming defect "{name}": TLC must report {sorted(inv)}', r.violated in inv, f'TLC reported {r.violated}')
-    r = pmut.result()
-    chk.add_tlc('Parameters with seeded defect native_bool', r, expect_ok=False)
-    chk.control('Parameters.tla dumping booleans as TOML booleans: TLC must report RoundTrip', r.violated == 'RoundTrip', f'TLC reported {r.violated}')
-    r = rmut.result()
-    chk.add_tlc('ResultsIO with seeded defect load_first', r, expect_ok=False)
-    chk.control('ResultsIO.tla loading name.pickle whatever was written: TLC must report RoundTrip', r.violated == 'RoundTrip',
-                f'TLC reported {r.violated}')
-
-    if control_hist is None:
-        raise tlc.MachineryError('no history for the negative controls of Files')
-    h, sc, good_trace = control_hist
-    # (a) somebody takes the predicted fresh name first: the replay must see another name than TLC expected,
-    #     while the recorded trace (judged on the recorded directory) is still a correct behaviour
-    st, val = rt.forked(fio.replay, dict(hist=h, slices=sc.slices, control='precreate'))
-    keys = {m['key'] for m in val['mismatches']} if st == 'ok' else {st}
-    v_pre, _ = fio.validate([fio.encode_trace(0, val['trace'])]) if st == 'ok' else ({0: 'n/a'}, None)
-    chk.control('predicted fresh name created by somebody else before the operation: replay differs from the expected history, '
-                'the trace is still accepted', 'files:write:created names' in keys and v_pre.get(0) == 'ok', f'{sorted(keys)} trace={v_pre.get(0)}')
-    # (b) an implementation that reuses name.ext: replay and trace validation must both object
-    st, val = rt.forked(fio.replay, dict(hist=h, slices=sc.slices, control='overwrite'))
-    keys = {m['key'] for m in val['mismatches']} if st == 'ok' else {st}
-    v_ov, _ = fio.validate([fio.encode_trace(0, val['trace'])]) if st == 'ok' else ({0: 'n/a'}, None)
-    chk.control('get_new_file_name replaced by name.ext (overwriting implementation): replay mismatch and trace rejected',
-                bool(keys) and v_ov.get(0, 'ok') != 'ok', f'{sorted(keys)[:3]} trace={v_ov.get(0)}')
-    # (c) one sha of an old file corrupted in a recorded trace
-    bad = copy.deepcopy(good_trace)
-    bad['tid'] = 0
-    victim = next(s for s in bad['steps'] if any(e['n'] != fio.SENTINEL for e in s['before']) and s['op']['k'] != 'extremove')
-    old = next(e for e in victim['before'] if e['n'] != fio.SENTINEL)
-    for e in victim['after']:
-        if e['n'] == old['n']:
-            e['s'] = 9999
-    v_c, _ = fio.validate([bad])
-    chk.control('one sha of an existing file changed in a recorded trace: FilesTrace must answer old-file-changed',
-                v_c.get(0, '').endswith('old-file-changed'), f'verdict {v_c.get(0)}')
-    # (d) drop the created file from a recorded snapshot
-    bad = copy.deepcopy(good_trace)
-    bad['tid'] = 0
-    s0 = bad['steps'][0]
-    s0['after'] = [e for e in s0['after'] if e['n'] in {x['n'] for x in s0['before']}]
-    v_d, _ = fio.validate([bad])
-    chk.control('the created file removed from a recorded snapshot: FilesTrace must answer new-names',
-                v_d.get(0, '').endswith('new-names'), f'verdict {v_d.get(0)}')
-    # parameters: one boolean flipped in the dumped file behind the specification's back
-    if control_par is None:
-        raise tlc.MachineryError('no history for the negative control of Parameters')
-    prow = control_par
-    # (the file is written by the driver, so the control does not depend on dump_file working)
-    flip = dict(steps=[dict(k='read', p='', v='', outcome='ok')], obj=[['Output/generate_html', 'b:True']], failed=False,
-                file=dict(ex=True, alien=False, focus=[['Output/generate_html', 's:True']]), prewrite=True)
-    st0, val0 = rt.forked(pio.replay, dict(hist=flip, rows=prow))
-    st1, val1 = rt.forked(pio.replay, dict(hist=flip, rows=prow, tamper='flip_bool'))
-    k0 = {m['key'] for m in val0['mismatches']} if st0 == 'ok' else {st0}
-    k1 = {m['key'] for m in val1['mismatches']} if st1 == 'ok' else {st1}
-    chk.control('one boolean flipped in the dumped file: the replay must report the object and the file',
-                {'parameters:object:value differs', 'parameters:file:entry differs'} <= (k1 - k0), f'untampered {sorted(k0)} tampered {sorted(k1)}')
-    # results: the pickle modified on disk; the expected estimate shifted
-    if control_res is None:
-        raise tlc.MachineryError('no record for the negative controls of ResultsIO')
-    for tamper, must in (('pickle', 'stats:logLike'), ('expected', 'loaded object: html report:Value')):
-        st, val = rt.forked(rio.replay, dict(rec=control_res, tamper=tamper))
-        keys = {m['key'] for m in val['mismatches']} if st == 'ok' else {st}
-        chk.control({'pickle': 'estimate and log likelihood changed inside the pickle file before loading',
-                     'expected': "the specification's estimate of the first parameter shifted by 1"}[tamper],
-                    must in keys, f'{sorted(keys)[:4]}')
-
+    # ------------------------------------------------------------------ what was found is on record before any control runs
     agg.flush()
+
+    # ------------------------------------------------------------------ negative controls
+    # (each one guarded: a library that does not behave as a control assumes makes it 'not detected', never a crash;
+    #  vb.check reports violations before undetected controls)
+    def tlc_control(key, title, want, run_name):
+        def fn():
+            r = fmut[key].result() if key in fmut else key.result()
+            chk.add_tlc(run_name, r, expect_ok=False)
+            return r.violated in want, f'TLC reported {r.violated}'
+        guarded(chk, title, fn)
+
+    tlc_control('overwrite', 'Files.tla with seeded naming defect "overwrite": TLC must report FreshNames or NoOverwrite',
+                {'FreshNames', 'NoOverwrite'}, 'Files with seeded defect overwrite')
+    tlc_control('highest', 'Files.tla with seeded naming defect "highest": TLC must report LeastRule', {'LeastRule'},
+                'Files with seeded defect highest')
+    tlc_control('prefix', 'Files.tla with seeded lookup defect "prefix" (every file whose name starts with the model name): TLC must report '
+                'RecycleOwnModel (model mode is handed the results of mode_price)', {'RecycleOwnModel'}, 'Files with seeded defect prefix')
+    tlc_control(pmut, 'Parameters.tla dumping booleans as TOML booleans: TLC must report RoundTrip', {'RoundTrip'},
+                'Parameters with seeded defect native_bool')
+    tlc_control(rmut, 'ResultsIO.tla loading name.pickle whatever was written: TLC must report RoundTrip', {'RoundTrip'},
+                'ResultsIO with seeded defect load_first')
+
+    # --- files, real code.  The traces handed to FilesTrace for the corruption controls are the ones the SPECIFICATION
+    #     describes for an emitted history (fio.expected_trace), so they do not depend on the library under test.
+    ctl_traces, ctl_expect = [], {}
+
+    def want_verdict(name, trace_steps, accept):
+        tid = len(ctl_traces)
+        ctl_traces.append(fio.encode_trace(tid, trace_steps))
+        ctl_expect[tid] = (name, accept)
+
+    if control_hist is not None:
+        h, sc, _ = control_hist
+        good = fio.expected_trace(h)
+        want_verdict('the trace the specification describes for a history (no corruption) is accepted', good, lambda v: v == 'ok')
+        # (a) somebody takes the predicted fresh name first: the replay must see another name than TLC expected,
+        #     while the recorded trace (judged on the recorded directory) is still a correct behaviour
+        st_a, val_a = rt.forked(fio.replay, dict(hist=h, slices=sc.slices, control='precreate'))
+        if st_a == 'ok':
+            want_verdict('predicted fresh name created by somebody else before the operation: the recorded trace is still accepted',
+                         val_a['trace'], lambda v: v == 'ok')
+        guarded(chk, 'predicted fresh name created by somebody else before the operation: replay differs from the expected history',
+                lambda: ('files:write:created names' in _keys(st_a, val_a), f'{sorted(_keys(st_a, val_a))}'))
+        # (b) an implementation that reuses name.ext: replay and trace validation must both object
+        st_b, val_b = rt.forked(fio.replay, dict(hist=h, slices=sc.slices, control='overwrite'))
+        if st_b == 'ok':
+            want_verdict('get_new_file_name replaced by name.ext (overwriting implementation): trace rejected', val_b['trace'],
+                         lambda v: v not in ('ok', None))
+        guarded(chk, 'get_new_file_name replaced by name.ext (overwriting implementation): replay mismatch',
+                lambda: (bool(_keys(st_b, val_b)), f'{sorted(_keys(st_b, val_b))[:3]}'))
+        # (c) one sha of an old file corrupted in a recorded trace
+        bad = copy.deepcopy(good)
+        victim = next(s for s in bad if any(n != fio.SENTINEL for n in s['before']) and s['op']['k'] != 'extremove')
+        old = next(n for n in sorted(victim['before']) if n != fio.SENTINEL and n in victim['after'])
+        victim['after'][old] = 'corrupted'
+        want_verdict('one sha of an existing file changed in a trace: FilesTrace must answer old-file-changed', bad,
+                     lambda v: str(v).endswith('old-file-changed'))
+        # (d) drop the created file from a snapshot
+        bad = copy.deepcopy(good)
+        bad[0]['after'] = {n: x for n, x in bad[0]['after'].items() if n in bad[0]['before']}
+        want_verdict('the created file removed from a snapshot: FilesTrace must answer new-names', bad,
+                     lambda v: str(v).endswith('new-names'))
+    else:
+        chk.control('a history for the negative controls of Files (first step writes a numbered report)', False, 'none emitted')
+    if control_prefix is not None:
+        h, sc, _ = control_prefix
+        good = fio.expected_trace(h)
+        # (e) files_of_type replaced by the single pattern <model>*.<ext>: model mode must be seen to read a pickle of mode_price
+        st_e, val_e = rt.forked(fio.replay, dict(hist=h, slices=sc.slices, control='loose_lookup'))
+        if st_e == 'ok':
+            want_verdict('files_of_type replaced by the pattern <model>*.<ext>: trace rejected (files-of-type / loaded-file / new-names)',
+                         val_e['trace'], lambda v: str(v).split(':')[-1] in ('files-of-type', 'loaded-file', 'new-names'))
+        guarded(chk, 'files_of_type replaced by the pattern <model>*.<ext> (sees mode_price.pickle, mode_validation.pickle as files of model '
+                'mode): the replay must report the listed files and the file read',
+                lambda: ({'files:recycle:files of the model (holds files of another model)', 'files:recycle:file read'} <= _keys(st_e, val_e),
+                         f'{sorted(_keys(st_e, val_e))}'))
+        # (f) a file of another model slipped into the recorded answer of files_of_type
+        bad = copy.deepcopy(good)
+        bad[0]['listed'] = bad[0]['listed'] + ['mode_price.pickle']
+        want_verdict("mode_price.pickle added to the recorded files_of_type('pickle') of model mode: FilesTrace must answer files-of-type", bad,
+                     lambda v: str(v).endswith('files-of-type'))
+    else:
+        chk.control('a history for the negative controls of the lookup by model name (recycle of mode next to pickles of mode_price)',
+                    False, 'none emitted')
+    if ctl_traces:
+        try:
+            v_ctl, r_ctl = fio.validate(ctl_traces)
+            note = (r_ctl.error or '')[:300]
+        except Exception as e:  # noqa
+            v_ctl, note = {}, f'{type(e).__name__}: {str(e)[:300]}'
+        for tid, (name, accept) in ctl_expect.items():
+            guarded(chk, name, lambda: (accept(v_ctl.get(tid)), f'verdict {v_ctl.get(tid)} {note}'))
+
+    # --- parameters: one boolean flipped in the dumped file behind the specification's back
+    #     (the file is written by the driver, so the control does not depend on dump_file working)
+    both = {'parameters:object:value differs', 'parameters:file:entry differs'}   # what a changed file must produce for its parameter
+
+    def involving(st, val, parameter):
+        if st != 'ok':
+            return {f'replay {st}'}
+        return {m['key'] for m in val['mismatches'] if m.get('parameter') == parameter}
+
+    if control_par is not None:
+        prow = control_par
+
+        def flipped():
+            flip = dict(steps=[dict(k='read', p='', v='', outcome='ok')], obj=[['Output/generate_html', 'b:True']], failed=False,
+                        file=dict(ex=True, alien=False, focus=[['Output/generate_html', 's:True']]), prewrite=True)
+            k0 = involving(*rt.forked(pio.replay, dict(hist=flip, rows=prow)), 'Output/generate_html')
+            k1 = involving(*rt.forked(pio.replay, dict(hist=flip, rows=prow, tamper='flip_bool')), 'Output/generate_html')
+            return both <= k1 and 'parameters:file:entry differs' not in k0, f'untampered {sorted(k0)} tampered {sorted(k1)}'
+
+        guarded(chk, 'one boolean flipped in the parameter file: the replay must report the object and the file', flipped)
+
+        def truncated():
+            # a number that is not an integer, held by a parameter whose default is an int: the value in the file is
+            # replaced by its integer part behind the specification's back
+            key = 'Specification/missing_data'
+            row = [r for r in prow if r['key'] == key and r['kind'] == 'int' and 'f:99999.5' in r['adm']]
+            if not row:
+                return False, 'no int-declared parameter admits 99999.5 in this table'
+            hist = dict(steps=[dict(k='read', p='', v='', outcome='ok')], obj=[[key, 'f:99999.5']], failed=False,
+                        file=dict(ex=True, alien=False, focus=[[key, 'f:99999.5']]), prewrite=True, preset={key: 'f:99999.5'})
+            k0 = involving(*rt.forked(pio.replay, dict(hist=hist, rows=prow)), key)
+            k1 = involving(*rt.forked(pio.replay, dict(hist=hist, rows=prow, tamper='truncate')), key)
+            return both <= k1 and 'parameters:file:entry differs' not in k0, f'untampered {sorted(k0)} tampered {sorted(k1)}'
+
+        guarded(chk, 'missing_data = 99999.5 written as 99999 in the parameter file: the replay must report the object and the file', truncated)
+    else:
+        chk.control('a parameter table for the negative controls of Parameters', False, 'none')
+
+    # --- results: the pickle modified on disk; the expected estimate shifted
+    if control_res is not None:
+        for tamper, must in (('pickle', 'stats:logLike'), ('expected', 'loaded object: html report:Value')):
+            def tampered(tamper=tamper, must=must):
+                keys = _keys(*rt.forked(rio.replay, dict(rec=control_res, tamper=tamper)))
+                return must in keys, f'{sorted(keys)[:4]}'
+            guarded(chk, {'pickle': 'estimate and log likelihood changed inside the pickle file before loading',
+                          'expected': "the specification's estimate of the first parameter shifted by 1"}[tamper], tampered)
+    else:
+        chk.control('a record for the negative controls of ResultsIO (two parameters, earlier pickles)', False, 'none emitted')
     chk.uncovered += [
         'byte-level fidelity of the pickle / TOML encodings (the specifications see files as maps); comments of the generated '
         'parameter file',
@@ -440,6 +567,10 @@ def _body(chk: check.Check, pool):
         'cannot be told apart in that report; not generated',
         'the files of the saved-iterations mechanism (__model.iter, rewritten in place by design) belong to C15; snapshots keep '
         'only *.html, *.pickle, *.tex, *.F12, *.dat',
+        'model names that are themselves a numbered version of another model name (a model named m~00 next to model m: m~00.pickle is '
+        'by its name a file of both) are replayed for the naming of new files only, not for the lookups by model name; likewise a '
+        'model NAMED m_validation or m_val_est_<i> next to a validated model m (TLC reports FoundAreOwn for it: the scheme itself is '
+        'ambiguous there); model names containing glob metacharacters ([, *, ?) are not generated',
         'recycle: WHICH pickle is read is replayed as documented by the warning (last in string order); that this is the most recent '
         'one is not part of C14 and does not hold with holes / beyond ~99 (see recycle_observation)',
         'reports of results without second derivatives are checked on one real quick_estimate() only (the Results specification '
@@ -449,6 +580,10 @@ def _body(chk: check.Check, pool):
         'tomllib (standard library) is the independent reader of the parameter file; hand edits are written by a 20-line TOML writer',
         'figures parsed back from the reports are compared to the printed precision (3 significant digits; 12 in F12)',
         'which pickle file is read is observed through a sys.addaudithook("open") hook, no change in /repo',
+        'a value read back is the value written when it is of the same class (bool / int / float / str) and compares equal: 7.0 read '
+        'back as 7 counts as a change (it is written differently into the next file and is refused where an integer is demanded)',
+        'the files of model m with extension e are m.e and m~NN.e with NN as get_new_file_name prints it (two digits; more beyond 99, '
+        'without leading zero); the files validate() writes for model m belong to the fold models m_val_est_<i> and to m_validation',
     ]
 
 
